@@ -7,6 +7,8 @@ import (
 	"fmt"
 	"math"
 	"math/big"
+	"os"
+	"path/filepath"
 	"reflect"
 	"sort"
 	"strconv"
@@ -16,6 +18,13 @@ import (
 	"github.com/itchyny/gojq/cli"
 	. "verifharness/hlib"
 )
+
+// a stream records at most 20 violations (a broken tree panics on every case)
+func violate(c *Ctx, line string) {
+	if len(c.Viol) < 20 {
+		c.Violation("%s", line)
+	}
+}
 
 // ---- C: parseFlags ----------------------------------------------------------------------------------
 
@@ -92,7 +101,7 @@ func runFlags(c *Ctx) {
 	emit := func(args []string) {
 		line, p := flagsLine(args)
 		if p != nil {
-			c.Violation("%s", cliCaseLine("cli", args, "", nil))
+			violate(c, cliCaseLine("cli", args, "", nil))
 			return
 		}
 		c.Emit("%s", line)
@@ -145,7 +154,7 @@ func runLR(c *Ctx) {
 		}
 		defer func() {
 			if r := recover(); r != nil {
-				c.Violation("%s", libCase(src, nil, nil))
+				violate(c, libCase(src, nil, nil))
 			}
 		}()
 		chars, offs := gojq.VerifC08Lex(src)
@@ -191,7 +200,7 @@ func runPreview(c *Ctx) {
 	emitVal := func(v any) {
 		defer func() {
 			if r := recover(); r != nil {
-				c.Violation("%s", libCase(".", v, nil))
+				violate(c, libCase(".", v, nil))
 			}
 		}()
 		tag := "other"
@@ -264,5 +273,101 @@ func runPreview(c *Ctx) {
 		default:
 			emitVal(g.shaped())
 		}
+	}
+}
+
+// ---- integ: the command's top level (flags + option errors + query errors + exit status) ----------------
+// Queries are drawn from a fixed set whose library outcomes are known, so that the world handed to the model
+// (coq/integ/CliTotal.v) does not depend on a model of the library.
+type cmdQuery struct {
+	src        string
+	parse, cmp bool
+	outs       string // outcomes of one run on null
+}
+
+var cmdQueries = []cmdQuery{{".", true, true, "n"}, {"false", true, true, "f"}, {"1", true, true, "o"}, {"empty", true, true, ""}, {"null, 1", true, true, "n o"},
+	{"1, false", true, true, "o f"}, {"[", false, false, ""}, {"nosuchfunction", true, false, ""}, {"halt_error(7)", true, true, "(h 7)"}, {"1, halt_error(3), 2", true, true, "o (h 3)"},
+	{"halt", true, true, "(h 0)"}, {"", true, false, ""}, {". as [$a] ?// $a | 1", true, true, "o"}, {"}", false, false, ""}}
+
+func runCmd(c *Ctx) {
+	g := &gen{r: c.Rng}
+	words := []string{"-h", "--help", "-v", "--version", "--indent", "--indent", "--tab", "--yaml-output", "-e", "--exit-status", "-n", "-n", "-n", "--null-input", "-r", "-c", "-j", "--raw-output0", "-s",
+		"--unknown", "-f", "--from-file", "--", "-rn", "-en", "-ne", "-hn", "-nce", "--indent=3", "--indent=10", "--indent=-1", "--indent=x", "-C", "-M", "--stream", "-R", "-x", "--tab=1", "-e=1"}
+	nums := []string{"0", "1", "7", "9", "10", "-1", "11", "x", "", "+9", "007", "9223372036854775808"}
+	for i := 0; i < c.N; i++ {
+		q := cmdQueries[g.r.Intn(len(cmdQueries))]
+		var args []string
+		for k := g.r.Intn(5); k > 0; k-- {
+			w := words[g.r.Intn(len(words))]
+			args = append(args, w)
+			if w == "--indent" && !g.r.Chance(1, 6) {
+				args = append(args, nums[g.r.Intn(len(nums))])
+			}
+		}
+		pos := g.r.Intn(len(args) + 1)
+		if !g.r.Chance(1, 8) {
+			args = append(args[:pos:pos], append([]string{q.src}, args[pos:]...)...)
+		}
+		func() {
+			defer func() {
+				if r := recover(); r != nil {
+					violate(c, cliCaseLine("cli", args, "", nil))
+				}
+			}()
+			rest, optsAny, err := cli.VerifC08ParseFlags(args)
+			// what the query text will be, and whether -n is in force, follows from the parsed options
+			query, fromFile, null, slurp, fileOK := ".", false, false, false, true
+			if err == nil {
+				v := reflect.ValueOf(optsAny).Elem()
+				fromFile = v.FieldByName("FromFile").Bool()
+				null = v.FieldByName("InputNull").Bool()
+				slurp = v.FieldByName("InputSlurp").Bool()
+				if fromFile {
+					if len(rest) > 0 {
+						if bs, e := os.ReadFile(filepath.Join(repoDir(), "cli", rest[0])); e == nil {
+							query = string(bs)
+						} else {
+							fileOK = false
+						}
+					}
+				} else if len(rest) > 0 {
+					query = strings.TrimSpace(rest[0])
+				}
+				if len(rest) > 1 {
+					return // further arguments are input files: outside this stream
+				}
+			}
+			var known *cmdQuery
+			for k := range cmdQueries {
+				if cmdQueries[k].src == query {
+					known = &cmdQueries[k]
+				}
+			}
+			if known == nil {
+				return
+			}
+			runs := ""
+			if null {
+				runs = "(" + known.outs + ")"
+			} else if slurp {
+				// empty stdin slurped: one run on [] (or "" with -R): `.` is then a non-null, non-false value
+				o := known.outs
+				if known.src == "." {
+					o = "o"
+				}
+				runs = "(" + o + ")"
+			}
+			var so, se capWriter
+			so.max, se.max = 1<<20, 1<<20
+			st := cli.VerifC08Command(args, &pipeReader{s: ""}, &so, &se)
+			b := func(x bool) int {
+				if x {
+					return 1
+				}
+				return 0
+			}
+			c.Emit("(cmd %s %d %d %d %d (%s))", hexList(args), st, b(known.parse), b(known.cmp), b(fileOK), runs)
+			c.Count(fmt.Sprintf("cmd-status%d", st))
+		}()
 	}
 }
